@@ -36,6 +36,7 @@ structure Authorized (E : Env) (r : Relay) (sbhArg max : Int) (app : App) (nodes
   unique : E.evidence.has = false
   underLimit : E.evidence.n < max
   allowance : maxPossibleRelays app (E.nodeCount sbhArg) = some max
+  allowancePos : 0 < max
 
 /-- **served_requires**: if `Relay.Validate` returns without error, every authorization condition
 of the property holds. -/
@@ -56,20 +57,23 @@ theorem served_requires (E : Env) (r : Relay) (sbhArg max : Int)
         · rename_i max' hmax
           split at h
           · cases h
-          · rename_i hev
+          · rename_i hpos
             split at h
             · cases h
-            · rename_i hloc
+            · rename_i hev
               split at h
               · cases h
-              · rename_i hss
-                cases h
-                obtain ⟨h1, h2, h3, h4, h5, h6⟩ := preChecks_none hpre
-                obtain ⟨e1, e2, e3⟩ := evidenceChecks_none hev
-                obtain ⟨hb, haddr, _, _⟩ := validateLocal_none hloc
-                obtain ⟨nodes, hs, hk, hc, _, hin⟩ := sessionStage_none hss
-                exact ⟨app, nodes, ⟨happ, hk, hb.token, hb.clientSigned, h3, hs, hin, haddr, hc, h4,
-                  ⟨h5, hb.height, h6⟩, h2, h1, e1, e2, e3, hmax⟩⟩
+              · rename_i hloc
+                split at h
+                · cases h
+                · rename_i hss
+                  cases h
+                  obtain ⟨h1, h2, h3, h4, h5, h6⟩ := preChecks_none hpre
+                  obtain ⟨e1, e2, e3⟩ := evidenceChecks_none hev
+                  obtain ⟨hb, haddr, _, _⟩ := validateLocal_none hloc
+                  obtain ⟨nodes, hs, hk, hc, _, hin⟩ := sessionStage_none hss
+                  exact ⟨app, nodes, ⟨happ, hk, hb.token, hb.clientSigned, h3, hs, hin, haddr, hc, h4,
+                    ⟨h5, hb.height, h6⟩, h2, h1, e1, e2, e3, hmax, by omega⟩⟩
 
 
 /-- A concrete world and relay that pass (non-vacuity of `served_requires`). -/
@@ -95,10 +99,11 @@ set_option maxRecDepth 20000 in
 example : validate E0 r0 9 = .ok 300 := by decide +kernel
 
 
-/-- `HandleRelay` serves only if, in addition, the session height is inside the tolerance window
-`[latest − allowance·blocksPerSession, latest]` of the node's current height. -/
+/-- `HandleRelay` serves only if, in addition, the session height is the first block of a session
+and lies inside the tolerance window `[latest − allowance·blocksPerSession, latest]` of the node's
+current height. -/
 theorem served_requires_handle (E : Env) (r : Relay) (max : Int) (h : handleRelay E r = .ok max) :
-    (0 < r.proof.sbh ∧
+    (0 < r.proof.sbh ∧ (r.proof.sbh - 1) % E.bps = 0 ∧
       latestSessionHeight E.height E.bps - E.sessionAllowance * E.bps ≤ r.proof.sbh ∧
       r.proof.sbh ≤ latestSessionHeight E.height E.bps) ∧
     ∃ app nodes, Authorized E r r.proof.sbh max app nodes := by
@@ -109,11 +114,13 @@ theorem served_requires_handle (E : Env) (r : Relay) (max : Int) (h : handleRela
     unfold withinTolerance at ht
     split at ht
     · cases ht
-    · simp only [decide_eq_true_eq] at ht
-      omega
+    · split at ht
+      · cases ht
+      · rename_i hg
+        simp only [decide_eq_true_eq] at ht
+        refine ⟨by omega, by simpa using hg, ht.1, ht.2⟩
   · simp only [ht] at h
     cases h
-
 
 /-- **alter_field_rejected**: a relay in which any single authorization ingredient is wrong is not
 served, whatever the other fields are. -/
@@ -161,55 +168,95 @@ theorem alter_field_rejected (E : Env) (r : Relay) (sbhArg : Int)
   · have := a.blockHeight.2; omega
   · exact h a.token.version
 
-/-- An allowance that rounds to zero with no evidence stored yet ends in `log.Fatalf`: the node
-process exits (replayed on the real code; the property's "rejected" becomes "node killed"). -/
-theorem zero_allowance_kills_node (E : Env) (r : Relay) (sbhArg : Int) (app : App)
+/-- Validation never ends in `log.Fatalf` (a relay cannot kill the node), whatever the relay and
+the ledger: an allowance of zero is refused with the over-service error before the evidence is
+consulted (fix 94ea242; historically `GetTotalProofs` exited the process here). -/
+theorem validate_never_fatal (E : Env) (r : Relay) (sbhArg : Int) : validate E r sbhArg ≠ .fail .fatal := by
+  unfold validate
+  split
+  · rename_i e he
+    intro h
+    cases h
+    exact preChecks_ne_fatal E r sbhArg he
+  · split
+    · intro h; cases h
+    · unfold validateApp
+      split
+      · intro h; cases h
+      · split
+        · intro h; cases h
+        · rename_i max' _
+          split
+          · intro h; cases h
+          · rename_i hpos
+            split
+            · rename_i e he
+              intro h
+              cases h
+              have := evidenceChecks_fatal E max' he
+              omega
+            · split
+              · rename_i e he
+                intro h
+                cases h
+                exact validateLocal_ne_fatal _ _ _ _ he
+              · split
+                · rename_i e he
+                  intro h
+                  cases h
+                  exact sessionStage_ne_fatal _ _ _ _ _ he
+                · intro h; cases h
+
+/-- An application whose per-node allowance rounds to zero is refused with the over-service error. -/
+theorem zero_allowance_refused (E : Env) (r : Relay) (sbhArg : Int) (app : App)
     (hpre : preChecks E r sbhArg = none) (happ : E.appAt sbhArg r.proof.token.appPub = some app)
     (hmc : ¬ (E.enforceMaxChains = true ∧ (app.chains.length : Int) > E.maxChains))
-    (hmax : maxPossibleRelays app (E.nodeCount sbhArg) = some 0) (hnf : E.evidence.found = false) :
-    validate E r sbhArg = .fail .fatal := by
+    (hmax : maxPossibleRelays app (E.nodeCount sbhArg) = some 0) :
+    validate E r sbhArg = .fail (pc 71) := by
   unfold validate validateApp
-  simp [hpre, happ, hmc, hmax, evidenceChecks, hnf]
+  simp [hpre, happ, hmc, hmax]
 
 set_option maxRecDepth 20000 in
 example : validate { E0 with appAt := fun _ _ => some { pubRaw := hexOf "ab" 32, chains := ["0001"], maxRelays := 1 },
-                             nodeCount := fun _ => 3 } r0 9 = .fail .fatal := by decide +kernel
+                             nodeCount := fun _ => 3 } r0 9 = .fail (pc 71) := by decide +kernel
 
-/-- The tolerance window does not look at the session grid: with an allowance of one session a
-height that is *not* the first block of a session passes (replayed through `HandleRelay`:
-`served-session-height-not-a-session-start`). -/
-theorem tolerance_accepts_non_session_start :
-    withinTolerance { E0 with height := 69, sessionAllowance := 1 } 68 = true ∧ (68 - 1) % 4 ≠ 0 := by
-  decide +kernel
-
-/-- With the default allowance 0 the window is the single height `latest`, which is on the grid. -/
+/-- With the default allowance 0 the window is the single height `latest`. -/
 theorem tolerance_zero_is_latest (E : Env) (sbh : Int) (h0 : E.sessionAllowance = 0)
     (h : withinTolerance E sbh = true) : sbh = latestSessionHeight E.height E.bps := by
   unfold withinTolerance at h
   split at h
   · cases h
-  · simp only [decide_eq_true_eq, h0] at h
-    omega
+  · split at h
+    · cases h
+    · simp only [decide_eq_true_eq, h0] at h
+      omega
 
-/-- The repaired tolerance check (window ∧ first block of a session). -/
-def withinToleranceFixed (E : Env) (sbh : Int) : Bool :=
-  withinTolerance E sbh && decide ((sbh - 1) % E.bps = 0)
+/-- Whatever the allowance, only first blocks of a session pass the tolerance check (fix e007075;
+historically `latest − 1` passed with an allowance of one session). -/
+theorem tolerance_on_session_grid (E : Env) (sbh : Int) (h : withinTolerance E sbh = true) :
+    (sbh - 1) % E.bps = 0 := by
+  unfold withinTolerance at h
+  split at h
+  · cases h
+  · split at h
+    · cases h
+    · rename_i hg; simpa using hg
 
-theorem tolerance_fixed_on_grid (E : Env) (sbh : Int) (h : withinToleranceFixed E sbh = true) :
-    withinTolerance E sbh = true ∧ (sbh - 1) % E.bps = 0 := by
-  unfold withinToleranceFixed at h
-  simpa using h
+example : withinTolerance { E0 with height := 69, sessionAllowance := 1 } 68 = false ∧
+    withinTolerance { E0 with height := 69, sessionAllowance := 1 } 65 = true := by decide +kernel
 
-/-- Session rollover with the end-of-session block unavailable: the error path dereferences a nil
-error (`er.Error()`) — a panic instead of an error result. -/
-theorem rollover_error_path_panics (E : Env) (r : Relay) (sbhArg : Int) (app : App) (max : Int)
+/-- Session rollover with the end-of-session block unavailable is an internal error (fix b757cb3;
+historically a nil-error dereference panicked here). -/
+theorem rollover_error_reported (E : Env) (r : Relay) (sbhArg : Int) (app : App) (max : Int)
     (hpre : preChecks E r sbhArg = none) (happ : E.appAt sbhArg r.proof.token.appPub = some app)
     (hmc : ¬ (E.enforceMaxChains = true ∧ (app.chains.length : Int) > E.maxChains))
-    (hmax : maxPossibleRelays app (E.nodeCount sbhArg) = some max) (hev : evidenceChecks E max = none)
+    (hmax : maxPossibleRelays app (E.nodeCount sbhArg) = some max) (hpos : 0 < max)
+    (hev : evidenceChecks E max = none)
     (hloc : validateLocal E r.proof app.chains sbhArg = none)
     (hover : E.height > sbhArg + E.bps - 1) (hend : E.sessionEndCtxOk = false) :
-    validate E r sbhArg = .fail .panic := by
+    validate E r sbhArg = .fail (.err "sdk" 1) := by
   unfold validate validateApp
-  simp [hpre, happ, hmc, hmax, hev, hloc, sessionStage, hover, hend]
+  have : ¬ max ≤ 0 := by omega
+  simp [hpre, happ, hmc, hmax, this, hev, hloc, sessionStage, hover, hend]
 
 end C35
